@@ -6,7 +6,8 @@ the end test stays reachable and no endless stream is possible) and every base /
 k-mer of a neighbouring node, no out-of-range panic) — a violation is reported with a concrete small (c, N, n, K)
 found by a decision procedure over the recorded linear constraints; into_iter sets (0, len-K+1, first k-mer),
 size_hint reports num_kmers, and the node iterators visit node i for i = 0..len exactly once each; the k-mer reads it relies
-on (DnaStringSlice::get_kmer remap, DnaString::get_kmer block walk for every k-mer type) return the K bases at the position."""
+on (DnaStringSlice::get_kmer remap, DnaString::get_kmer block walk for every k-mer type) return the K bases at the position.
+Added later: override table of the node iterators (differential against next())."""
 from .. import dt_seq, structural, lemmas
 from . import common
 
